@@ -39,9 +39,12 @@ def shunting_yard(expr_nodes: list[ExprNode]) -> list[ExprNode]:
         elif isinstance(expr, BinOp) or isinstance(expr, UnaryOp):
             current_precedence = OPERATOR_PRECEDENCE[expr.token.value] if isinstance(expr, BinOp) else 2
 
+            # a prefix operator never pops pending operators, it applies to what follows it.
             while (
-                len(operator_stack) > 0
-                and OPERATOR_PRECEDENCE[operator_stack[-1].token.value] <= current_precedence
+                isinstance(expr, BinOp)
+                and len(operator_stack) > 0
+                and (2 if isinstance(operator_stack[-1], UnaryOp) else OPERATOR_PRECEDENCE[operator_stack[-1].token.value])
+                <= current_precedence
                 and operator_stack[-1].token.value != "("
             ):
                 output_queue.append(operator_stack.pop())
